@@ -284,6 +284,8 @@ func (fr *frame) exec(in ssa.Instruction) {
 				if x.sym() {
 					zero := m.tt.bvc(x.w, 0)
 					m.require("panic.make", bv{t: m.tt.bvcmp("bvsge", x.t, zero)}, in.Pos(), false)
+					// prefer a model far above the budget: only those fail natively as well
+					m.require("alloc.big", bv{t: m.tt.bvcmp("bvsle", x.t, m.tt.bvc(x.w, uint64(1)<<44))}, in.Pos(), false)
 					m.require("alloc.big", bv{t: m.tt.bvcmp("bvsle", x.t, m.tt.bvc(x.w, uint64(m.h.allocBudget)))}, in.Pos(), false)
 				}
 			}
